@@ -457,6 +457,44 @@ def main(tier):
     E3, T3, P3 = [x.ravel() for x in np.meshgrid(Es[::3], ths[::3], phs, indexing='ij')]
     calls += execlib.independence(ck, 'c12', 'shipped', [('CS_KN', Es), ('DCS_Thoms', ths), ('DCS_KN', E2, T2), ('ComptonEnergy', E2, T2), ('MomentTransf', E2, T2),
                                                            ('DCSP_Thoms', T3, P3), ('DCSP_KN', E3, T3, P3)])
+    # ---- cut-off probe: implementations of these formulas switch between a series and a closed form (or clamp, or fold an angle) at ROUND values of
+    # E/mc2 or of E.  Around every m x 10^n (m = 1, 1.5, 2 ... 9; both for E/mc2 and for E in keV) a ladder of offsets from 1e-9 to 1e-4 relative on
+    # both sides is compared with the closed forms evaluated in 40-digit arithmetic: a seam that is wrong only inside a window of 1e-7 shows here
+    import mpmath
+    mpmath.mp.dps = 40
+    ms = [1, 1.5, 2, 2.5, 3, 4, 5, 6, 7, 8, 9]
+    centres = sorted({m_ * 10.0 ** n_ * MEC2 for m_ in ms for n_ in range(-6, 3)} | {m_ * 10.0 ** n_ for m_ in ms for n_ in range(-4, 5)})
+    nl = 60 if quick else 400
+    lad = 10.0 ** np.linspace(-9, -4, nl)
+    offs = np.concatenate([-lad[::-1], [0.0], lad])
+    Ep = (np.array(centres)[:, None] * (1.0 + offs[None, :])).ravel()
+    mpE = [mpmath.mpf(float(e)) / mpmath.mpf(MEC2) for e in Ep]
+    two_pi_re2 = 2 * mpmath.pi * mpmath.mpf(RE2)
+
+    def kn_total(a):
+        l = mpmath.log(1 + 2 * a)
+        return two_pi_re2 * ((1 + a) / a ** 2 * (2 * (1 + a) / (1 + 2 * a) - l / a) + l / (2 * a) - (1 + 3 * a) / (1 + 2 * a) ** 2)
+    ref_kn = np.array([float(kn_total(a)) for a in mpE])
+    got = L.call('CS_KN', Ep); calls += len(Ep)
+    relerr = np.abs(got.v - ref_kn) / ref_kn
+    bad = np.nonzero(got.err | ~(relerr <= 5e-11))[0]
+    for k in bad[:3]:
+        ck.violation('c12:CS_KN:differs-from-the-closed-form-near-a-round-value', 'CS_KN(%s) = %s, the Klein-Nishina total evaluated in 40-digit arithmetic is %s (relative difference %.3g; E/mc2 = %.12g)' % (
+            fmt(Ep[k]), 'error' if got.err[k] else fmt(got.v[k]), fmt(ref_kn[k]), relerr[k], Ep[k] / MEC2), dict(call='CS_KN(%r)' % float(Ep[k]), returned=float(got.v[k]), closed_form=float(ref_kn[k])))
+    st['worst']['CS_KN_vs_closed_form_near_round_values'] = float(np.nanmax(relerr))
+    for th_ in (1.0, 2.5):
+        cth = mpmath.cos(mpmath.mpf(th_)); sth2 = mpmath.sin(mpmath.mpf(th_)) ** 2
+        kk_ = [1 / (1 + a * (1 - cth)) for a in mpE]
+        ref_ce = np.array([float(mpmath.mpf(float(e)) * k_) for e, k_ in zip(Ep, kk_)])
+        ref_dk = np.array([float(mpmath.mpf(RE2) / 2 * k_ ** 2 * (k_ + 1 / k_ - sth2)) for k_ in kk_])
+        for fn_, ref_ in (('ComptonEnergy', ref_ce), ('DCS_KN', ref_dk)):
+            g_ = L.call(fn_, Ep, np.full(len(Ep), th_)); calls += len(Ep)
+            rel_ = np.abs(g_.v - ref_) / np.abs(ref_)
+            for k in np.nonzero(g_.err | ~(rel_ <= 1e-12))[0][:3]:
+                ck.violation('c12:%s:differs-from-the-closed-form-near-a-round-value' % fn_, '%s(%s, %g) = %s, the closed form evaluated in 40-digit arithmetic is %s (relative difference %.3g)' % (
+                    fn_, fmt(Ep[k]), th_, 'error' if g_.err[k] else fmt(g_.v[k]), fmt(ref_[k]), rel_[k]), dict(call='%s(%r, %r)' % (fn_, float(Ep[k]), th_), returned=float(g_.v[k]), closed_form=float(ref_[k])))
+            st['worst']['%s_vs_closed_form_near_round_values' % fn_] = max(st['worst'].get('%s_vs_closed_form_near_round_values' % fn_, 0.0), float(np.nanmax(rel_)))
+    st['cutoff_probe_points'] = int(len(Ep))
     # a host thread in a directed rounding mode gets the same functions up to rounding - angles far outside [-pi, pi] included
     _Er = np.array([1e-3, 0.5, 10.0, 100.0, 511.0, 5e3, 1e5])
     _Tr = np.concatenate([np.linspace(-4 * PI, 4 * PI, 81), [4.0, 5.5, 7.0, -3.5, 9.0, 15.0, 40.0, 55.0, -100.0, 1e3]])
